@@ -361,7 +361,8 @@ impl PropertySet {
         for (_, value) in self.properties.iter() {
             value.write(writer.by_ref(), self.codepage)?;
         }
-        Ok(())
+        // (Flush explicitly, since dropping a buffered writer discards errors.)
+        writer.flush()
     }
 
     pub fn format_identifier(&self) -> &[u8; 16] {
